@@ -182,8 +182,8 @@ FilterNext == { Child(<<SFilter(f)>>) : f \in FSmall } \cup { N(kA), N(kB), Ix(0
 SegMid == SegTail \cup { N(kB), N(kS), N(kD), N(kU), Ix(1), Ix(0 - 2), Child(<<Sl(BV(1), BAbs, BAbs)>>), Child(<<SIdx(1), SIdx(0)>>),
                         Child(<<SName(kA), SWild>>), Child(<<SPath("cur", <<N(kA), Ix(0)>>), SName(kA)>>), Desc(<<SName(kA)>>), Desc(<<SIdx(0)>>),
                         Child(<<SFilter(FCmp("==", Cur(<<N(kA)>>), L(I(1))))>>), Child(<<SFilter(FNot(Cur(<<N(kB)>>)))>>) }
-\* positions 1..2 draw from the full alphabet, position 3 from SegTail (quick) or SegMid (thorough), position 4 from SegTail
-Alphabet(pos) == CASE Mode = "seg" -> (IF pos <= 2 THEN SegFull ELSE IF pos = 3 /\ MaxSegs > 3 THEN SegMid ELSE SegTail)
+\* positions 1..2 draw from the full alphabet, position 3 from SegMid, position 4 (thorough) from SegTail
+Alphabet(pos) == CASE Mode = "seg" -> (IF pos <= 2 THEN SegFull ELSE IF pos = 3 THEN SegMid ELSE SegTail)
                    [] Mode = "slice" -> SliceSegs
                    [] Mode = "filter" -> (IF pos = 1 THEN FilterFirst ELSE FilterNext)
 
